@@ -119,9 +119,10 @@ def run(ctx):
     ctx.notes["mc_design_os"] = dict(distinct=mco.distinct, generated=mco.generated)
     if not q:
         ctx.tlc("MC_ClientMuxOS", "MC_ClientMuxOS_live.cfg", deadlock=True, timeout=3000)
-    os_scns = scns if not ctx.replay else scns
-    if q:
-        os_scns = scns[::2]
+    # (closing its own stdin / waiting to be aborted are scripted for the in-process client only)
+    os_scns = [s for s in scns if not any(h[0] in ("CI", "B") for h in s["hist"])]
+    if q and not ctx.replay:
+        os_scns = os_scns[::2]
     traces2, ok2, acc2 = execute(ctx, binp, os_scns, "TestVerifC10RunOS", "Trace_ClientMuxOS", "os")
     ctx.notes["os_client"] = dict(schedules=len(os_scns), accepted=len(acc2))
     traces, ok = traces + traces2, ok + ok2
